@@ -4,20 +4,20 @@
        flt_eval (flt_emit R f) (row_of e) = Some TTrue  <->  flt_sat R f e = true
    where [row_of e] is the dataset row of the entity: metadata never NULL (coalesce), address_array = the segments of
    the address, sources_arrays / destinations_arrays = the exploded sources / destinations, one balance row per asset.
-   The faithful model of the code REFUTES it in three ways that are NOT repaired (witnesses below, each replayed on the
+   The faithful model of the code REFUTES it in two ways that are NOT repaired (witnesses below, each replayed on the
    real code by the `filters` harness, see known_findings.d/filter.json):
      - a `$not` above a comparison on an absent value (reference, reverted_at, balance[A] of an account without A):
        SQL NULL stays NULL under NOT, the entity is dropped                                  (C20_refuted_not_over_absent)
-     - bare `balance` on accounts: scalar sub-select over all assets => SQLSTATE 21000        (C20_refuted_bare_balance)
      - empty `$or`: Builder.Build emits "1 = 1"                                              (C20_refuted_empty_or)
-   Four further defects found by this property were REPAIRED in /repo (fixes/01..04) and are now positive theorems:
+   Five further defects found by this property were REPAIRED in /repo (fixes/01..04, filter-08), now positive theorems:
+     - bare `balance` on accounts is an EXISTS over the per-asset rows (was: SQLSTATE 21000)  (C20_bare_balance)
      - `$in` on the log `type` no longer panics: it is emitted as `type IN (..)`               (C20_log_type_in)
      - `$exists` on balance is rejected by validation (was: panic)                            (C20_exists_on_balance_rejected)
      - `$in` on metadata[k] is rejected by validation (was: selected nothing)                 (C20_in_on_metadata_rejected)
      - the lateral push-down collects `$in` address arrays: with canPush the pre-filtered dataset lists exactly the
        matching entities (was: refuted by `$or[partial, $in]`)                                (C20_pushdown)
    STRONGEST TRUE STATEMENTS: C20_emit_sound (two-valued, no nullable leaf), C20_emit_sound_partial (nullable leaves not
-   below a `$not`; at most one asset for bare `balance`), both without any bound on depth, width or values. *)
+   below a `$not`), both without any bound on depth, width or values. *)
 From Coq Require Import List ZArith String Bool.
 From LV Require Import Ledger.Filter Ledger.FilterProofs.
 Import ListNotations.
@@ -30,8 +30,8 @@ Theorem C20_emit_sound : forall R e f, ent_kind R e = true -> strict_f R f = tru
 Proof. intros R e f Hk Hs. exact (emit_strict R e Hk f Hs). Qed.
 Print Assumptions C20_emit_sound.
 
-(* nullable leaves (reference, reverted_at, balance on accounts) in positive position *)
-Theorem C20_emit_sound_partial : forall R e f, ent_kind R e = true -> wf_entity e -> pos_f R e f = true ->
+(* nullable leaves (reference, reverted_at, balance[ASSET] on accounts) in positive position *)
+Theorem C20_emit_sound_partial : forall R e f, ent_kind R e = true -> wf_entity e -> pos_f R f = true ->
   (flt_eval (flt_emit R f) (row_of e) = Some TTrue <-> flt_sat R f e = true).
 Proof.
   intros R e f Hk Hwf Hp. destruct (emit_pos R e Hk Hwf f Hp) as [t [Ht Hag]]. rewrite Ht. unfold tri_agrees in Hag.
@@ -53,7 +53,7 @@ Print Assumptions C20_address_transactions.
 (* list = exactly the matching entities, count = length of the list (model level), first without push-down ... *)
 Theorem C20_list : forall R pit f es,
   flt_validate R f = FvOk -> flt_prefilter R pit f = None ->
-  (forall e, In e es -> ent_kind R e = true /\ wf_entity e /\ pos_f R e f = true) ->
+  (forall e, In e es -> ent_kind R e = true /\ wf_entity e /\ pos_f R f = true) ->
   flt_list R pit f es = FrOk (flt_ref R f es).
 Proof. exact list_sound. Qed.
 Print Assumptions C20_list.
@@ -62,12 +62,12 @@ Print Assumptions C20_list.
    The key lemma (pushdown_covers): safe_lateral false f -> every entity satisfying f satisfies one collected address. *)
 Theorem C20_pushdown : forall R pit f es,
   flt_validate R f = FvOk ->
-  (forall e, In e es -> ent_kind R e = true /\ wf_entity e /\ pos_f R e f = true) ->
+  (forall e, In e es -> ent_kind R e = true /\ wf_entity e /\ pos_f R f = true) ->
   flt_list R pit f es = FrOk (flt_ref R f es).
 Proof. exact list_sound_pushdown. Qed.
 Print Assumptions C20_pushdown.
 Theorem C20_pushdown_covers : forall R x f, (R = RVol \/ R = RAgg) ->
-  pos_f R (EVol x) f = true -> safe_lateral false f = true -> contains_addr f = true ->
+  pos_f R f = true -> safe_lateral false f = true -> contains_addr f = true ->
   flt_sat R f (EVol x) = true ->
   existsb (fun p => addr_match p (fv_account x)) (collect_addrs f) = true.
 Proof. exact pushdown_covers. Qed.
@@ -86,16 +86,18 @@ Proof. exists (FNot (FLt KRevertedAt (VTime 5))), (ETx w_tx). vm_compute. repeat
 Print Assumptions C20_refuted_not_over_absent.
 
 Definition w_acc : acc_ent := mkAcc "bank" [("role", "v1")] 100 100 100 [("EUR", 5%Z); ("USD", 7%Z)].
-Theorem C20_refuted_bare_balance :
-  exists f e, ent_kind RAcc e = true /\ wf_entity e /\ flt_validate RAcc f = FvOk /\
-              flt_sat RAcc f e = true /\ flt_eval (flt_emit RAcc f) (row_of e) = None /\
-              flt_list RAcc false f [e] = FrCardinality.
-Proof.
-  exists (FGt KBalanceAny (VInt 0)), (EAcc w_acc). split; [reflexivity|]. split.
-  - simpl. repeat constructor; simpl; intuition discriminate.
-  - vm_compute. repeat split.
-Qed.
-Print Assumptions C20_refuted_bare_balance.
+(* repaired (fixes/filter-08): bare `balance` on accounts is `exists (select 1 … where balance <op> v)`: two-valued for any
+   number of assets (it was a scalar sub-select: SQLSTATE 21000 on multi-asset accounts, suspect S-20a) *)
+Theorem C20_bare_balance : forall o v a,
+  flt_eval (emit_leaf RAcc o KBalanceAny v) (row_of (EAcc a))
+  = Some (tri_of_bool (existsb (fun ab => sat_num o (snd ab) v) (fa_balances a))).
+Proof. intros o v a. exact (bal_any_pair o v a). Qed.
+Print Assumptions C20_bare_balance.
+Example C20_bare_balance_former_witness :
+  strict_f RAcc (FGt KBalanceAny (VInt 0)) = true /\
+  flt_list RAcc false (FGt KBalanceAny (VInt 0)) [EAcc w_acc] = FrOk [EAcc w_acc] /\
+  flt_list RAcc false (FNot (FLt KBalanceAny (VInt 6))) [EAcc w_acc] = FrOk [].
+Proof. vm_compute. repeat split. Qed.
 
 (* repaired (fixes/04): `$in` on metadata[k] is not a valid filter any more, on any resource *)
 Theorem C20_in_on_metadata_rejected : forall R k v, flt_validate R (FIn (KMeta k) v) = FvInvalid.
@@ -137,7 +139,7 @@ Definition ex_f : filter :=
 Definition ex_t1 : tx_ent := mkTx 1 (Some "r1") 100 101 101 None [("k1", "v1")] ["world"] ["users:1:main"].
 Definition ex_t2 : tx_ent := mkTx 2 None 100 102 102 (Some 150%Z) [] ["users:1:main"] ["bank:eu:1"].
 Example C20_example :
-  pos_f RTx (ETx ex_t1) ex_f = true /\ flt_validate RTx ex_f = FvOk /\
+  pos_f RTx ex_f = true /\ flt_validate RTx ex_f = FvOk /\
   flt_list RTx false ex_f [ETx ex_t1; ETx ex_t2] = FrOk [ETx ex_t1] /\
   flt_ref RTx ex_f [ETx ex_t1; ETx ex_t2] = [ETx ex_t1] /\
   flt_count RTx false ex_f [ETx ex_t1; ETx ex_t2] = Some 1%nat.
